@@ -742,7 +742,7 @@ Definition router_steps_ok (steps : list str) : bool :=
 
 Definition rows_ok (chk : str -> list str -> bool) (tab : list (string * list string)) : bool :=
   forallb (fun row : string * list string =>
-             forallb (fun p => match steps_of p with Some st => chk (s (fst row)) st | None => true end) (snd row)) tab.
+             forallb (fun p => match steps_of p with Some st => chk (s (fst row)) st | None => false end) (snd row)) tab.
 
 (* finite obligation over the generated catalogue: no path starts at (or, below templating, touches) a member that
    valid_current looks at *)
@@ -760,7 +760,7 @@ Proof.
   cbn [rows_ok forallb fst snd] in H. apply andb_true_iff in H. destruct H as [H1 H2].
   cbn [catalog_paths] in Hp. destruct (str_eqb (s k) t) eqn:E.
   - apply str_eqb_eq in E. subst t. rewrite forallb_forall in H1. specialize (H1 p Hp).
-    destruct (steps_of p); [exact H1 | exact I].
+    destruct (steps_of p); [exact H1 | discriminate H1].
   - now apply IH.
 Qed.
 
